@@ -5,6 +5,7 @@ cd "$(dirname "$0")/.."
 export GOFLAGS=-mod=mod GOPROXY=off GOSUMDB=off GOTOOLCHAIN=local VERIF_NO_SELFTEST=1
 rc=0
 for i in 01 02 03 04 05 06 07 08 09 10 11 12 13 14 15 16 17 18 19 20; do
+  case "${1:-quick}" in quick|thorough) ;; *) echo "usage: tools/runall.sh [quick|thorough]"; exit 2;; esac
   out=$(./bin/check C$i --tier ${1:-quick} 2>&1); r=$?
   echo "$out" | grep -E "^VIOLATION|^KNOWN-FINDING" | cut -c1-300
   echo "$out" | tail -1
